@@ -7,7 +7,7 @@ CONSTANTS
   FeePcts = {0, 50}
   Lats = {2}
   Sinces = {0, 2}
-  OpenCids = {"o1"}
+  OpenCids = {}
   MaxTrades = 1
   ClockSlack = FALSE
   IdSlack = 0
